@@ -1,4 +1,7 @@
-use std::{collections::HashMap, path::Path};
+use std::{
+    collections::{HashMap, HashSet},
+    path::Path,
+};
 
 use anyhow::Context;
 
@@ -130,6 +133,16 @@ impl SemanticState {
                 })
             })
             .collect::<anyhow::Result<Vec<_>>>()?;
+
+        let mut extern_value_names = HashSet::new();
+        for ev in &extern_values {
+            if !extern_value_names.insert(ev.name.clone()) {
+                anyhow::bail!(
+                    "the extern value `{}` is defined more than once in module `{path}`",
+                    ev.name
+                );
+            }
+        }
 
         self.modules.insert(
             path.clone(),
